@@ -686,3 +686,39 @@ free piece:
 +--------+-------+-------------+-----------------------------------+
 ```
 */
+
+/// verification hook: layout probe of the key piece.
+#[cfg(feature = "abyssiniandb_verif")]
+pub mod verif {
+    use super::*;
+    /// calls `f(value_offset, next_offset, size_field_len, piece_len, slot_size)` for a key
+    /// of `key_len` bytes and every pair of the offsets with the crate's own sizing code.
+    pub fn key_layout_sweep(
+        key_len: usize,
+        offsets: &[u64],
+        f: &mut dyn FnMut(u64, u64, u32, u32, u32),
+    ) {
+        use crate::filedb::DbBytes;
+        let piece_mgr = PieceMgr::new(&REC_SIZE_FREE_OFFSET, &REC_SIZE_ARY);
+        let mut piece: KeyPiece<DbBytes> = KeyPiece::with_key_value_next(
+            DbBytes::from(vec![0u8; key_len]),
+            ValuePieceOffset::new(0),
+            KeyPieceOffset::new(0),
+        );
+        for &value_offset in offsets {
+            for &next_offset in offsets {
+                piece.value_offset = ValuePieceOffset::new(value_offset);
+                piece.bucket_next_offset = KeyPieceOffset::new(next_offset);
+                let (encorded_piece_len, piece_len, _key_len) = piece.encoded_piece_size();
+                let slot = piece_mgr.roundup(KeyPieceSize::new(encorded_piece_len + piece_len));
+                f(
+                    value_offset,
+                    next_offset,
+                    encorded_piece_len,
+                    piece_len,
+                    slot.as_value(),
+                );
+            }
+        }
+    }
+}
